@@ -14,9 +14,15 @@ import vlib
 
 PROOF_MODULES = []   # the C10 .v files are compiled by build_coq below (not yet in coq/_CoqProject)
 
-# my Coq files, in dependency order
-MODULES = ["C10/DiffRuleAst.v", "C10/Gen_DiffRules.v", "C10/DiffModel.v"]
-OBLIGATIONS = []
+RULE_CLASSES = ["Sin", "Cos", "Tan", "Cot", "Sec", "Csc", "ASin", "ACos", "ATan", "ACot", "ASec", "ACsc",
+                "Sinh", "Cosh", "Tanh", "Coth", "Sech", "Csch", "ASinh", "ACosh", "ATanh", "ACoth", "ASech", "ACsch", "Log"]
+# my Coq files in dependency order, as stages (the files of one stage do not depend on each other)
+STAGES = [["C10/DiffRuleAst.v"], ["C10/Gen_DiffRules.v"], ["C10/DiffModel.v"], ["C10/DiffInd.v", "C10/DiffSem.v"],
+          ["C10/DiffAbsent.v", "C10/DiffCache.v", "C10/DiffReal.v"], ["C10/RuleSpec.v"],
+          ["C10/RS_%s.v" % c for c in RULE_CLASSES], ["C10/RulesAll.v"], ["C10/DiffSound.v"]]
+OBLIGATIONS = (["C10/P_rule_%s.v" % c for c in RULE_CLASSES] +
+               ["C10/P_diff_sound.v", "C10/P_diff_absent.v", "C10/P_diff_cache_irrelevant.v",
+                "C10/P_diff_cache_invariant.v", "C10/P_transcription_current.v", "C10/P_nonvacuous.v"])
 
 F1_RULE = ["sin", "cos", "tan", "cot", "sec", "csc", "asin", "acos", "atan", "acot", "asec", "acsc",
            "sinh", "cosh", "tanh", "coth", "sech", "csch", "asinh", "acosh", "atanh", "acoth", "asech", "acsch",
@@ -39,23 +45,39 @@ def translate(ctx):
 
 
 def build_coq(ctx):
-    """compile the C10 modules that are stale, in dependency order"""
+    """compile the C10 modules that are stale, stage by stage (until they are listed in coq/_CoqProject);
+    a module that no longer compiles is a broken proof, and its dependents fail with it"""
+    from concurrent.futures import ThreadPoolExecutor
     ok = True
+    shared = ["Expr/Guards.vo", "Expr/NumProofs.vo", "Gen/TypeCodes.vo"]
+
+    def compile_one(v):
+        rc, out = vlib.sh(["timeout", "900", "coqc", "-Q", ".", "SE", "-w", "-notation-overridden", v],
+                          cwd=vlib.COQ, timeout=930)
+        return v, rc, out
+
     with vlib.Lock(os.path.join(vlib.WORK, "coq-c10.lock")):
-        newest = 0.0
-        for v in MODULES:
-            src = os.path.join(vlib.COQ, v)
-            vo = src + "o"
-            if (not os.path.exists(vo)) or os.path.getmtime(vo) < os.path.getmtime(src) or os.path.getmtime(vo) < newest:
-                rc, out = vlib.sh(["timeout", "900", "coqc", "-Q", ".", "SE", "-w", "-notation-overridden", v],
-                                  cwd=vlib.COQ, timeout=930)
-                if rc != 0:
-                    ok = False
-                    if os.path.exists(vo):
-                        os.remove(vo)
-                    ctx.broken.append({"kind": "proof", "name": v, "detail": out[-2500:]})
-                    continue
-            newest = max(newest, os.path.getmtime(vo))
+        newest = max([os.path.getmtime(os.path.join(vlib.COQ, d)) for d in shared if os.path.exists(os.path.join(vlib.COQ, d))] or [0.0])
+        for stage in STAGES:
+            stale = []
+            for v in stage:
+                src = os.path.join(vlib.COQ, v)
+                vo = src + "o"
+                if (not os.path.exists(vo)) or os.path.getmtime(vo) < os.path.getmtime(src) or os.path.getmtime(vo) < newest:
+                    stale.append(v)
+            if stale:
+                with ThreadPoolExecutor(max_workers=12) as ex:
+                    for v, rc, out in ex.map(compile_one, stale):
+                        vo = os.path.join(vlib.COQ, v) + "o"
+                        if rc != 0:
+                            ok = False
+                            if os.path.exists(vo):
+                                os.remove(vo)
+                            ctx.broken.append({"kind": "proof", "name": v, "detail": out[-2500:]})
+            for v in stage:
+                vo = os.path.join(vlib.COQ, v) + "o"
+                if os.path.exists(vo):
+                    newest = max(newest, os.path.getmtime(vo))
     return ok
 
 
@@ -166,6 +188,7 @@ CORPUS = [
     case("x", "(div (add (pow __X (i 5)) (i 36893488147419103232)) (add (mul (q 1 18446744073709551629) __X) y))"),
     # constants whose rule factor is singular: mul(zoo, 0) = nan, polygamma(0, 2^64+1) throws
     case("x", "(f1 asec (i 0))"), case("x", "(f1 loggamma (i 18446744073709551617))"), case("y", "(f2 beta I x)"),
+    case("x", "(add __X (f1 loggamma (i 18446744073709551617)))"), case("y", "(diff (fs f (f1 tanh (f2 beta I x)) __X) __X)"),
     # Max/Min independent of x
     case("x", "(max y z)"), case("y", "(diff (fs f (max (i 0) z) __X) __X)"),
 ]
@@ -196,6 +219,7 @@ def gen_cases(rng, tier, n):
 
 
 # ---------------------------------------------------------------------------------------- exploration
+NOT_ARITH = re.compile(r"\((Bool|Lex|Interval|Atom|F1 Not|F2 (Equality|Unequality|LessThan|StrictLessThan)|FN (And|Or|Xor|FiniteSet|Union|Intersection)|Opaque)\b")
 SYM_LEAF = re.compile(r"\((Sym|Dummy) (x[0-9a-f]*)( \d+)?\)")
 
 
@@ -214,7 +238,7 @@ def oracle_key(kind, dx, de, res=""):
     if name_clash(dx, de):
         return "C10/symbol-compared-by-name"
     if kind == "numeric-complex" and ("ACosh" in de):
-        return "C10/complex-branch:ACosh"
+        return "C10/acosh-rule-branch"
     if kind == "cache":
         return "C10/cache-dependence"
     if kind == "absent":
@@ -260,6 +284,8 @@ def explore(ctx, drv, model, cases, search=False):
         for t in f[3:]:
             if t.startswith("#ORACLE:"):
                 kind = t[8:].split(":")[0]
+                if kind == "absent" and res.startswith("EXN") and NOT_ARITH.search(de):
+                    continue   # booleans and sets have no derivative: the exception is the specified result
                 ctx.violation(oracle_key(kind, dx, de, res), "case `%s`: %s" % (c, t[8:]),
                               {"family": "C10", "case": c, "x": dx, "e": de, "impl": res})
             elif t.startswith("#INFO:"):
@@ -311,6 +337,15 @@ def explore(ctx, drv, model, cases, search=False):
             ctx.cov[key] = ctx.cov.get(key, 0) + 1
             if p["info"].get("occurs") == 1 and p["res"] not in ("R:(I 0)",):
                 nontriv.add(p["e"] + "|" + p["x"])
+        elif v.startswith("EXNDIFF impl=EXN") and " model=(" in v and not NOT_ARITH.search(p["e"]):
+            # the library throws while differentiating an arithmetic expression (the model multiplies the
+            # throwing outer factor by a literal 0 and drops it): reported as a finding
+            if p["info"].get("occurs", 1) == 1:
+                ctx.violation("C10/exception-from-singular-constant",
+                              "case `%s`: diff(e, x) throws %s although e is an arithmetic expression (e = %s)" % (
+                                  p["case"], v.split(" ")[1][5:], p["e"][:300]),
+                              {"family": "C10", "case": p["case"], "x": p["x"], "e": p["e"], "impl": p["res"]})
+            ctx.cov["tie_skipped_singular_constant"] = ctx.cov.get("tie_skipped_singular_constant", 0) + 1
         elif "(NaN)" in v or "(Inf " in v:
             # a singular constant sub-expression (asec(0), log(0), ...): mul(zoo, 0) = nan on the library,
             # 0 in the model; where x does not occur the absent oracle has reported the case
